@@ -52,7 +52,11 @@ def run(tier: str) -> int:
         all_names = corpus.names()
         noped = corpus.noped_list()
         if tier == "quick":
-            sample = sorted(rnd.sample(all_names, 150) + [n for n in known_sites if n in all_names])
+            # a sample that COVERS every (operand class, operator, operand class) triple / called routine / cast type of the corpus
+            from . import featcover
+            cov, nfeat = featcover.cover(set(all_names))
+            stats["feature_cover"] = {"features": nfeat, "instructions": len(cov)}
+            sample = sorted(set(cov) | set(rnd.sample(all_names, 50)) | {n for n in known_sites if n in all_names})
             sample = list(dict.fromkeys(sample))
         else:
             sample = all_names
@@ -78,6 +82,9 @@ def run(tier: str) -> int:
             n_parts += 1
             if p["k2"] not in (0, 1):
                 k2_bad.append((r["name"], j, p["k2"]))
+                # the differential oracle judges the REAL output against the C semantics: its verdict stands without the model
+                if p.get("bad") and r["name"] not in known_sites:
+                    fails.append((r["name"], j, p))
                 continue
             if p["k2"] == 1:
                 n_rej += 1
@@ -128,7 +135,7 @@ def run(tier: str) -> int:
         "obligations": binfo["obligations"], "discharged": binfo["discharged"] if model_ok else 0, "checker_cmd": binfo["checker_cmd"],
         "trusted_base": res.assumptions, "print_assumptions": binfo["assumptions"], "translated": meta,
         "evaluations": n_parts, "distinct_nontrivial": n_acc,
-        "rule": "instruction definitions drawn from the bundled corpus (quick: seeded sample of 150 + known call sites; thorough: all 2181); "
+        "rule": "instruction definitions drawn from the bundled corpus (quick: a greedy cover of every operand-class/operator/operand-class triple, called routine and cast type of the corpus (~310 instructions) + 50 random + known call sites; thorough: all 2181); "
                 "each behaviour part compiled through load_insn_behavior/parse/transform_insn; non-trivial = accepted part whose real body "
                 "denotes the same tree as the model (K2 status 0)",
         "exhaustive": tier == "thorough",
